@@ -351,6 +351,29 @@ func c10Restore(sc *C10Sc, env *Env) *Violation {
 	if v := c10ReuseObject(w, ref, &refMem, env); v != nil {
 		return v
 	}
+	// whether notification handlers are registered is not among the things a Step may depend on: the same
+	// world without any (worlds whose events do not hang on a notification)
+	onRet := false
+	for _, e := range w.Events {
+		onRet = onRet || e.OnRet
+	}
+	if !onRet {
+		m := c10Machine(w)
+		m.CPU.RETNHandler, m.CPU.RETIHandler = nil, nil
+		for k := 0; k < w.Steps; k++ {
+			m.Step()
+			sg := sigOf(m)
+			sg.reti, sg.retn = ref[k+1].reti, ref[k+1].retn
+			if d := ref[k+1].diff(sg); d != "" {
+				return viol("handler-independence", "the same world without RETN/RETI notification handlers differs at boundary %d (with!=without):%s", k+1, d)
+			}
+		}
+		env.Fire("twin-without-notification-handlers")
+		env.Steps += uint64(w.Steps)
+	}
+	if v := c10RunResume(w, env); v != nil {
+		return v
+	}
 	if v := c10DMA(w, env); v != nil {
 		return v
 	}
@@ -407,6 +430,50 @@ func c10Restore(sc *C10Sc, env *Env) *Violation {
 		}
 	}
 	env.NonTrivial = true
+	return nil
+}
+
+// c10RunResume: a host that drives with Run. The program runs to its final HALT; the host then replaces
+// that HALT by a NOP and puts a new HALT three bytes further on (a debugger patching the program, a loader),
+// and calls Run again on the same CPU object. A CPU built afresh from States + memory at that moment and Run
+// in the same way must end in the same state: nothing but States, memory and the pending request carries over.
+func c10RunResume(w *C10World, env *Env) *Violation {
+	if w.Kind != "structured" || w.Prog == nil || w.NilIO {
+		return nil
+	}
+	w2 := *w
+	w2.Events, w2.Pokes = nil, nil
+	m := c10Machine(&w2)
+	var budget uint64
+	m.Hook = func(mm *world.Machine, _ world.Acc) {
+		if budget != 0 && mm.Bus.Tick > budget {
+			budget = 0
+			panic(&overrun{mm.Bus.Tick})
+		}
+	}
+	run := func(mm *world.Machine) (error, *overrun) {
+		budget = mm.Bus.Tick + 400000
+		err, over := safeRun(mm.CPU, context.Background())
+		budget = 0
+		return err, over
+	}
+	if err, over := run(m); err != nil || over != nil || m.CPU.PC != w.Prog.HaltAddr {
+		return nil // (a program that does not park on its final HALT within the budget: not this pass)
+	}
+	h := w.Prog.HaltAddr
+	m.Bus.Mem[h], m.Bus.Mem[h+1], m.Bus.Mem[h+2], m.Bus.Mem[h+3] = 0x00, 0x00, 0x00, 0x76
+	r := m.Restore() // new CPU object from States + memory (+ device cursors); the HALT field is not carried over
+	r.Hook = m.Hook
+	e1, o1 := run(m)
+	e2, o2 := run(r)
+	if o1 != nil || o2 != nil || e1 != nil || e2 != nil {
+		return viol("run-resume", "after the host replaced the final HALT by NOPs and put a HALT at %04x: Run on the original CPU object returned %v (overrun %t), Run on a CPU rebuilt from States + memory returned %v (overrun %t)", h+3, e1, o1 != nil, e2, o2 != nil)
+	}
+	a, b := sigOf(m), sigOf(r)
+	if d := a.diff(b); d != "" {
+		return viol("run-resume", "after the host replaced the final HALT by NOPs and put a HALT at %04x, Run on the original CPU object and Run on a CPU rebuilt from States + memory at that moment end differently (original!=rebuilt):%s", h+3, d)
+	}
+	env.Fire("run-resumed-after-host-patched-the-halt")
 	return nil
 }
 
